@@ -39,8 +39,8 @@ def body(run):
         vf.log("binding self-test skipped: the verdict pass already rejected real-code behaviour")
     else:
         run.selftest(out, meta, gen="self", dfs=True, field="size")
-        run.selftest(out, meta, gen="strand", dfs=True, field="out")
-        run.selftest(out, meta, gen="conc", dfs=True, field="ok")
+        run.selftest(out, meta, gen="strand", dfs=True, field="out", remove_match={"ev": "Inv", "o": "Put"})
+        run.selftest(out, meta, gen="conc", dfs=True, field="ok", remove_match={"ev": "Inv"})
     run.assumptions += [
         "elements are [producer, seq] pairs; results are projected by the harness with the Go standard library only",
         "the order of invocation/response events is the order of appends to one mutex-protected log (stamp before the call, stamp after the return); no wall-clock ordering across goroutines",
